@@ -228,7 +228,9 @@ func TestRaceServer(t *testing.T) {
 	cfgs := []cfg{
 		{"std", memcached.Regular, true, true},
 		{"chunked", memcached.Chunked, true, false},
-		{"batched", func(s string) handlers.HandlerConst { return memcached.Batched(s, batched.Opts{BatchSize: 4, BatchDelayMicros: 100}) }, false, false},
+		{"batched", func(s string) handlers.HandlerConst {
+			return memcached.Batched(s, batched.Opts{BatchSize: 4, BatchDelayMicros: 100})
+		}, false, false},
 		{"inmem", func(string) handlers.HandlerConst { return inmem.New }, false, true},
 	}
 	errs := make(chan string, 1024)
